@@ -660,7 +660,7 @@ func init() {
 	fw.Register(&fw.Check{
 		ID:          "C17",
 		Level:       "exploration",
-		Rule:        "for every RTP message type of the library (setup endpoints, its response, selected and supported stream configurations, supported RTP configuration, streaming status) and three synthetic structs covering every field kind (8/16/32/64-bit ints, float32, bool, string, bytes, nested struct, tagged list, inline list, list elements longer than one fragment): a base value, then every field (reflection-enumerated leaf) moved through its boundary alphabet with 1 and all pairs of 2 simultaneous deviations (thorough: triples); bytes compared with an independent reflective little-endian TLV8 encoder, then Unmarshal(Marshal(v)) compared with v; ownership: the bytes returned by Marshal must survive later Marshal calls, Unmarshal must not modify its input and decoding the same bytes twice must agree. Decoder inputs per type: all byte strings of length ≤2, every prefix and 8 substitutions per byte of a valid encoding, every tag 0..15 with value lengths 0..9. distinct_nontrivial = distinct (target type, case kind) classes A fourth synthetic struct uses tags 126, 127, 128, 129, 131, 200, 250, 254, 255.",
+		Rule:        "for every RTP message type of the library (setup endpoints, its response, selected and supported stream configurations, supported RTP configuration, streaming status) and three synthetic structs covering every field kind (8/16/32/64-bit ints, float32, bool, string, bytes, nested struct, tagged list, inline list, list elements longer than one fragment): a base value, then every field (reflection-enumerated leaf) moved through its boundary alphabet with 1 and all pairs of 2 simultaneous deviations (thorough: triples); bytes compared with an independent reflective little-endian TLV8 encoder, then Unmarshal(Marshal(v)) compared with v; ownership: the bytes returned by Marshal must survive later Marshal calls, Unmarshal must not modify its input and decoding the same bytes twice must agree. Decoder inputs per type: all byte strings of length ≤2, every prefix and 8 substitutions per byte of a valid encoding, every tag 0..15 with value lengths 0..9. distinct_nontrivial = distinct (target type, case kind) classes A fourth synthetic struct uses tags 126, 127, 128, 129, 131, 200, 250, 254, 255. Plus, in a subprocess built with a scheduling point before EVERY statement of hc's packages (textual insertion through go build -overlay): every interleaving with at most 1 (thorough 2) preemptions of pairs of operations on disjoint objects — and, where the property is about served requests, of pairs of handlers on two verified connections of one accessory touching different characteristics — each side must observe exactly what it observes when the two run one after the other (module-level mutable state is what makes them differ).",
 		Run:         c17Run,
 		Replay:      c17Replay,
 		Budget:      func(string) time.Duration { return 20 * time.Minute },
